@@ -170,7 +170,7 @@ impl<C: SymBridge> Lab<C> for SymLab<C> {
     }
     fn holds_eq_s(&mut self, a: Scalar<C>, b: Scalar<C>) -> Option<bool> {
         let (a, b) = (C::s_out(a), C::s_out(b));
-        symcore::with(|c| {
+        let r = symcore::with(|c| {
             if a.0 == b.0 {
                 return Some(true);
             }
@@ -191,7 +191,17 @@ impl<C: SymBridge> Lab<C> for SymLab<C> {
                 Some(false) => Some(false),
                 _ => None,
             }
-        })
+        });
+        symcore::with(|c| {
+            let what = match r {
+                Some(true) => "path condition entails equality (solver: negation unsat)",
+                Some(false) => "path condition entails disequality (solver / rule EX)",
+                None => "undetermined under the path condition",
+            };
+            let det = format!("{} vs {}: {what}", c.describe(a.0, 2), c.describe(b.0, 2));
+            c.record("EN", "entailment query on the current path", true, det);
+        });
+        r
     }
     fn holds_eq_e(&mut self, a: Element<C>, b: Element<C>) -> Option<bool> {
         let (a, b) = (C::e_out(a).dlog(), C::e_out(b).dlog());
